@@ -18,15 +18,15 @@ import (
 )
 
 type ErrObs struct {
-	Msg   string `json:"msg"`
-	File  string `json:"file"`
-	Index uint   `json:"index"`
-	Line  uint   `json:"line"`
-	Col   uint   `json:"col"`
-	Quote string `json:"quote"`
-	Full  string `json:"full"` // Error() incl. include trace
-	FileLen int  `json:"file_len"`
-	NilFile bool `json:"nil_file,omitempty"`
+	Msg     string `json:"msg"`
+	File    string `json:"file"`
+	Index   uint   `json:"index"`
+	Line    uint   `json:"line"`
+	Col     uint   `json:"col"`
+	Quote   string `json:"quote"`
+	Full    string `json:"full"` // Error() incl. include trace
+	FileLen int    `json:"file_len"`
+	NilFile bool   `json:"nil_file,omitempty"`
 }
 
 func (e *ErrObs) Tuple() string {
@@ -258,10 +258,10 @@ func call(f func() ([]byte, error)) (c Call) {
 	return c
 }
 
-func ToJson(j *kit.JApi) Call           { return call(j.ToJson) }
-func ToJsonIndent(j *kit.JApi) Call     { return call(j.ToJsonIndent) }
-func ToOpenAPI(j *kit.JApi) Call        { return call(j.ToOpenAPIJson) }
-func ToOpenAPIIndent(j *kit.JApi) Call  { return call(j.ToOpenAPIJsonIndent) }
+func ToJson(j *kit.JApi) Call          { return call(j.ToJson) }
+func ToJsonIndent(j *kit.JApi) Call    { return call(j.ToJsonIndent) }
+func ToOpenAPI(j *kit.JApi) Call       { return call(j.ToOpenAPIJson) }
+func ToOpenAPIIndent(j *kit.JApi) Call { return call(j.ToOpenAPIJsonIndent) }
 func Title(j *kit.JApi) Call {
 	return call(func() ([]byte, error) { return []byte(j.Title()), nil })
 }
